@@ -632,7 +632,20 @@ class Gen:
         """structure-aware corruption of a valid encoding"""
         r = self.rng
         b = bytearray(raw)
-        if t is not None and r.random() < 0.25:
+        if t is not None and r.random() < 0.12:
+            # a gap between the fixed part and the first variable part: every top-level offset moved up by k, k bytes
+            # inserted where the variable parts used to start (or not inserted: then the last part is cut short)
+            ps = offset_positions(t, len(b))
+            if ps:
+                x0 = int.from_bytes(b[ps[0]:ps[0] + 4], 'little')
+                k_ = r.choice([1, 1, 2, 4])
+                for i in ps:
+                    x = (int.from_bytes(b[i:i + 4], 'little') + k_) % (1 << 32)
+                    b[i:i + 4] = x.to_bytes(4, 'little')
+                if r.random() < 0.7 and x0 <= len(b):
+                    b[x0:x0] = bytes(r.getrandbits(8) for _ in range(k_))
+                return bytes(b)
+        if t is not None and r.random() < 0.3:
             # edit one of the real offsets of the top-level fixed part
             ps = offset_positions(t, len(b))
             if ps:
@@ -946,6 +959,10 @@ class StoreGen:
                     ops.append(['assign', pi, j, ci, cv['v']])
             elif c < 0.33 and len(self.views) < 9:
                 i = r.randrange(len(self.views))
+                if r.random() < 0.5:
+                    mv = [j for j, w in enumerate(self.views) if self.mutable(w)]
+                    if mv:
+                        i = r.choice(mv)
                 vw = self.views[i]
                 if not is_basic(vw['t']):
                     self.views.append(dict(t=vw['t'], v=vw['v'], hook=None, kids=False))
